@@ -292,10 +292,18 @@ def shard_worker(args):
 
 
 def load_known():
-    if not os.path.exists(KNOWN_FILE):
-        return {"known": [], "fixed": []}
-    with open(KNOWN_FILE) as f:
-        return json.load(f)
+    """known_findings.json is the committed file; known/<ID>.json fragments (same layout) are merged in
+    while a property's check is being developed (tools/merge_known.py folds them into the main file)."""
+    import glob
+
+    out = {"known": [], "fixed": []}
+    paths = ([KNOWN_FILE] if os.path.exists(KNOWN_FILE) else []) + sorted(glob.glob(os.path.join(ROOT, "known", "*.json")))
+    for p in paths:
+        with open(p) as f:
+            d = json.load(f)
+        out["known"] += d.get("known", [])
+        out["fixed"] += d.get("fixed", [])
+    return out
 
 
 def known_ids(pid=None):
